@@ -234,6 +234,23 @@ def oracle_c01(case, tb, rec, out):
                                               "msg": "%s (dependency of %s) was started at t=%s, after %s had started at t=%s" % (d, x, da, x, a),
                                               "witness": witness(case, rec)})
                     return
+    # The statement read to the letter: EVERY transitive dependency that is executed in this invocation, also one
+    # that is only reachable through a task that is not executed now (a cached experiment).  Conductor prunes the
+    # plan at cached experiments, so no ordering exists for such pairs; this is reported under its own key.
+    anc_full = gen.ancestors_map(tb)
+    for x, a, b in starts:
+        if x not in anc:
+            continue
+        for d in sorted((anc_full.get(x, set()) & ex) - anc[x]):
+            if d not in iv:
+                continue
+            out["reach"]["c01_dep_pairs_only_through_cached_tasks"] = out["reach"].get("c01_dep_pairs_only_through_cached_tasks", 0) + 1
+            if not [1 for (da, db, st, pid) in iv[d] if db < a and st == 0] or any(not (db < a or da > b) for (da, db, st, pid) in iv[d]):
+                via = sorted(m for m in anc_full[x] if m not in ex and d in anc_full.get(m, set()))
+                out["violations"].append({"key": "C01:no-ordering-through-a-cached-intermediate-task",
+                                          "msg": "%s started at t=%s although %s, which it depends on through the cached (not executed) %s and which IS executed in this invocation, had not exited 0 before (its executions: %s)" % (x, a, d, via[:3], iv[d]),
+                                          "witness": witness(case, rec)})
+                return
 
 
 def oracle_c02(case, tb, rec, out):
@@ -346,6 +363,14 @@ def oracle_c03(case, tb, rec, out):
         if x in S:
             out["violations"].append({"key": "C03:dependent-of-failed-task-started", "msg": "%s was started although a (transitive) dependency failed; failed=%s" % (x, sorted(F)), "witness": W()})
             return
+    # 1b. the statement read to the letter: also dependents that reach the failed task only through a task that is
+    # not executed now (a cached experiment).  Conductor prunes the plan there; reported under its own key.
+    anc_full = gen.ancestors_map(tb)
+    for x in sorted(spawned | {l[2] for l in lines if l[1] == "running"}):
+        if x in executed and x not in S and x not in F and (anc_full.get(x, set()) & F):
+            out["reach"]["c03_dependents_only_through_cached_tasks"] = out["reach"].get("c03_dependents_only_through_cached_tasks", 0) + 1
+            out["violations"].append({"key": "C03:dependent-through-a-cached-intermediate-task-not-skipped", "msg": "%s was started although %s failed, on which it depends through a cached (not executed) task" % (x, sorted(anc_full[x] & F)), "witness": W()})
+            break
     # 2. exit status
     any_fault_observed = bool(F & spawned) or bool(F)
     if not stop:
@@ -682,6 +707,20 @@ def gen_cases(seed, n, focus, strategies=None, max_tasks=8):
             inv = {"target": "//:top", "jobs": rng.choice([3, 4, 5, 8]), "again": False, "stop_early": False, "script": {F["id"]: pick_fault(rng, F)},
                    "strategy": rng.choice(["blocked-fifo", "blocked-lifo", "blocked-random", "blocked-all", "anywhere"]), "seed": rng.randrange(1 << 30)}
             cases.append({"family": "two-stage-fan-with-failing-sibling", "tasks": gen.dump([F, G] + fan + [top]), "history": [inv]})
+    # a -> e -> c with e a cached experiment and c executed again because the target also lists it (the plan is
+    # pruned at e, so nothing orders a after c; see the known findings of C01 / C03)
+    for rep in range(8 if n < 2000 else 60):
+        par = rng.random() < 0.5
+        c = gen.mk_task(rng.choice(["", "lib"]), "c", "run_command", par=par)
+        e = gen.mk_task("", "e", "run_experiment", [c["id"]], par=par)
+        a = gen.mk_task(rng.choice(["", "a"]), "a", rng.choice(["run_command", "run_experiment"]), [e["id"]], par=par)
+        order = [a["id"], c["id"]]
+        rng.shuffle(order)
+        top = gen.mk_task("", "top", "group", order)
+        inv1 = {"target": e["id"], "jobs": None, "again": False, "stop_early": False, "script": {}, "strategy": "blocked-fifo", "seed": rng.randrange(1 << 30)}
+        inv2 = {"target": "//:top", "jobs": rng.choice([None, 2, 3]), "again": False, "stop_early": False, "script": ({c["id"]: dict(rng.choice(FAULTS[:7]))} if focus == "faults" or rng.random() < 0.3 else {}),
+                "strategy": rng.choice(["blocked-fifo", "blocked-lifo", "blocked-random", "anywhere"]), "seed": rng.randrange(1 << 30)}
+        cases.append({"family": "dependency-only-through-a-cached-experiment", "tasks": gen.dump([c, e, a, top]), "history": [inv1, inv2]})
     if focus == "faults":
         # --stop-early with a failing and succeeding tasks finishing in ONE batch while more work is waiting
         for rep in range(24 if n < 2000 else 400):
